@@ -604,7 +604,8 @@ theorem World.pushBorrowed_spec (w : World) (i : Nat) (v : Iov) (s : Slice) (hv 
     ∃ v', w.pushBorrowed i s = some (w.setIov i (some v')) ∧ IovInv w v' ∧
       absCells w v' = absCells w v ++ (w.sliceBytes s).map Cell.byte ∧
       v'.backrefs = v.backrefs ∧ v'.arena = v.arena ∧ v'.consumedSize = v.consumedSize ∧
-      v'.logicalSize = v.logicalSize + s.len ∧ w.flat v'.slices = w.flat v.slices ++ w.sliceBytes s := by
+      v'.logicalSize = v.logicalSize + s.len ∧ w.flat v'.slices = w.flat v.slices ++ w.sliceBytes s ∧
+      v'.consumedSlices = v.consumedSlices ∧ (∀ j, j < v.slices.length → v'.slices.take j = v.slices.take j) := by
   unfold World.pushBorrowed
   rw [hv]
   simp only
@@ -622,10 +623,13 @@ theorem World.pushBorrowed_spec (w : World) (i : Nat) (v : Iov) (s : Slice) (hv 
   rw [hv2]
   obtain ⟨hinv2, hflat2, hbr2, hls2, hcs2, hcn2, har2⟩ := optimize_inv w _ v2 h1'
     (by intro e he; have := (hinv.br_ok e he).idx_lt; simp only [List.length_append, List.length_singleton]; omega) hv2
-  refine ⟨v2, rfl, hinv2, ?_, hbr2, har2, hcs2, hls2, ?_⟩
+  refine ⟨v2, rfl, hinv2, ?_, hbr2, har2, hcs2, hls2, ?_, hcn2, ?_⟩
   · apply absCells_push hinv _ _ hbr2 hcs2
     rw [hflat2]; simp
   · rw [hflat2]; simp
+  · intro j hj
+    rw [optimize_take _ v2 hv2 j (by show j + 2 ≤ (v.slices ++ [_]).length; rw [List.length_append, List.length_singleton]; exact Nat.add_le_add_right hj 1)]
+    exact List.take_append_of_le_length (Nat.le_of_lt hj)
 
 /-! ### Consumer side -/
 
@@ -872,5 +876,568 @@ theorem Refines.elim {i : Nat} {s : State} {op : Op} (h : Refines i s op) (s' : 
   simp only [Option.some.injEq, Prod.mk.injEq] at hs
   obtain ⟨rfl, rfl⟩ := hs
   exact h2
+
+/-! ### `push_copy` -/
+
+theorem alloc_cases (t : Tuning) (a : Arena) (next len : Nat) :
+    (∃ c, a.cache = some c ∧ len ≤ c.remaining ∧
+      alloc t a next len = (⟨some { c with bump := c.bump + len }⟩, next, c.chunk, c.bump)) ∨
+    (∃ cap, alloc t a next len = (⟨some ⟨next, cap, len⟩⟩, next + 1, next, 0)) := by
+  unfold alloc ensureCapacity
+  cases hc : a.cache with
+  | none => right; simp
+  | some c =>
+    simp only
+    by_cases hr : c.remaining ≥ len
+    · left
+      rw [if_pos hr]
+      simp only [hc]
+      exact ⟨c, rfl, hr, rfl⟩
+    · right
+      rw [if_neg hr]
+      simp
+
+/-- Everything the rest of the proof needs to know about `ByteArena::alloc` on the iovec's arena. -/
+theorem alloc_facts (w : World) (v : Iov) (len : Nat) (hinv : IovInv w v)
+    (al : Arena × Nat × Nat × Nat) (h : alloc w.tun v.arena w.next len = al) :
+    w.next ≤ al.2.1 ∧ al.2.2.1 < al.2.1 ∧
+    (∀ ca', al.1.cache = some ca' → ca'.chunk = al.2.2.1 ∧ ca'.bump = al.2.2.2 + len) ∧
+    (∀ x ∈ v.slices, ∀ c, x.region = .chunk c → c = al.2.2.1 → x.off + x.len ≤ al.2.2.2) := by
+  rcases alloc_cases w.tun v.arena w.next len with ⟨c, hc, hrem, he⟩ | ⟨cap, he⟩
+  · rw [he] at h
+    subst h
+    refine ⟨Nat.le_refl _, hinv.cache_fresh c hc, ?_, ?_⟩
+    · intro ca' hca'
+      simp only [Option.some.injEq] at hca'
+      subst hca'
+      exact ⟨rfl, rfl⟩
+    · intro x hx c' hreg hcc
+      exact ((hinv.slices_ok x hx).chunk c' hreg).2 c hc hcc.symm
+  · rw [he] at h
+    subst h
+    refine ⟨Nat.le_succ _, Nat.lt_succ_self _, ?_, ?_⟩
+    · intro ca' hca'
+      simp only [Option.some.injEq] at hca'
+      subst hca'
+      exact ⟨rfl, by simp⟩
+    · intro x hx c' hreg hcc
+      have := ((hinv.slices_ok x hx).chunk c' hreg).1
+      simp only at hcc
+      omega
+
+/-- The anchor update of `GlobalDeque::push` with `Anchor::merge_ref_or_create`. -/
+def pcAnchors (anchors : List Anchor) (chunk : Nat) : List Anchor :=
+  let anchors1 := match (mergeRefOrCreate anchors.getLast? chunk).1 with
+    | some a => setLast anchors a
+    | none => anchors
+  match (mergeRefOrCreate anchors.getLast? chunk).2 with
+  | some a => anchors1 ++ [a]
+  | none => anchors1
+
+theorem pcAnchors_spec (anchors : List Anchor) (chunk n : Nat) (hpos : ∀ a ∈ anchors, 0 < a.count)
+    (hsum : sumCounts anchors = n) :
+    (∀ a ∈ pcAnchors anchors chunk, 0 < a.count) ∧ sumCounts (pcAnchors anchors chunk) = n + 1 := by
+  rcases List.eq_nil_or_concat anchors with hnil | ⟨anc, a, hanc⟩
+  · subst hnil
+    simp only [sumCounts_nil] at hsum
+    subst hsum
+    refine ⟨?_, ?_⟩ <;> simp [pcAnchors, mergeRefOrCreate]
+  · rw [List.concat_eq_append] at hanc
+    subst hanc
+    simp only [sumCounts_append, sumCounts_cons, sumCounts_nil] at hsum
+    have hl : (anc ++ [a]).getLast? = some a := by simp
+    by_cases hc : a.chunk = some chunk
+    · have e : pcAnchors (anc ++ [a]) chunk = anc ++ [{ a with count := a.count + 1 }] := by
+        unfold pcAnchors
+        simp only [hl, mergeRefOrCreate, hc, if_true]
+        exact setLast_append_singleton _ _ _
+      rw [e]
+      refine ⟨?_, by simp only [sumCounts_append, sumCounts_cons, sumCounts_nil]; omega⟩
+      intro x hx
+      simp only [List.mem_append, List.mem_singleton] at hx
+      rcases hx with hx | rfl
+      · exact hpos x (by simp [hx])
+      · simp
+    · have e : pcAnchors (anc ++ [a]) chunk = anc ++ [a] ++ [⟨1, some chunk⟩] := by
+        unfold pcAnchors
+        simp only [hl, mergeRefOrCreate, hc, if_false]
+        rw [setLast_append_singleton]
+      rw [e]
+      refine ⟨?_, by simp only [sumCounts_append, sumCounts_cons, sumCounts_nil]; omega⟩
+      intro x hx
+      simp only [List.mem_append, List.mem_singleton] at hx
+      rcases hx with hx | rfl
+      · exact hpos x (by simpa using hx)
+      · simp
+
+theorem pushCopy_eq (w : World) (i : Nat) (v : Iov) (src : List UInt8) (hv : w.iov i = some v) (hne : src ≠ []) :
+    w.pushCopy i src =
+      (if (pcAnchors v.anchors (alloc w.tun v.arena w.next src.length).2.2.1).isEmpty then none
+       else
+        match Iov.optimize { v with
+            slices := v.slices ++ [⟨.chunk (alloc w.tun v.arena w.next src.length).2.2.1,
+                                    (alloc w.tun v.arena w.next src.length).2.2.2, src.length⟩],
+            anchors := pcAnchors v.anchors (alloc w.tun v.arena w.next src.length).2.2.1,
+            logicalSize := v.logicalSize + src.length,
+            arena := (alloc w.tun v.arena w.next src.length).1 } with
+        | none => none
+        | some v'' => some { (w.setIov i (some v'')) with
+            heap := w.heap.write (alloc w.tun v.arena w.next src.length).2.2.1
+                      (alloc w.tun v.arena w.next src.length).2.2.2 src,
+            next := (alloc w.tun v.arena w.next src.length).2.1 }) := by
+  unfold World.pushCopy
+  rw [hv]
+  have : src.isEmpty = false := by cases src with | nil => exact absurd rfl hne | cons _ _ => rfl
+  simp only [this, Bool.false_eq_true, if_false]
+  rfl
+
+theorem sliceBytes_write_disjoint (w w' : World) (k off : Nat) (bs : List UInt8) (x : Slice)
+    (hheap : w'.heap = w.heap.write k off bs) (hexts : w'.exts = w.exts)
+    (h : ∀ c, x.region = .chunk c → c ≠ k ∨ x.off + x.len ≤ off ∨ off + bs.length ≤ x.off) :
+    w'.sliceBytes x = w.sliceBytes x := by
+  unfold World.sliceBytes
+  cases hr : x.region with
+  | chunk c =>
+    simp only
+    rw [hheap, Heap.read_write_disjoint _ _ _ _ _ _ _ (h c hr)]
+  | ext b => simp only [hexts]
+
+theorem optimize_last (v v' : Iov) (pre : List Slice) (s : Slice) (hs : v.slices = pre ++ [s])
+    (h : v.optimize = some v') :
+    ∃ pre' last, v'.slices = pre' ++ [last] ∧ last.region = s.region ∧ s.len ≤ last.len := by
+  rcases optimize_cases v v' h with rfl | ⟨pre1, l, r, anc, a, ca, hsl, _, _, _, _, hr, _, rfl⟩
+  · exact ⟨pre, s, hs, rfl, Nat.le_refl _⟩
+  · rw [hs] at hsl
+    have : pre ++ [s] = (pre1 ++ [l]) ++ [r] := by simpa using hsl
+    have := List.append_inj_right' this rfl
+    simp only [List.cons.injEq, and_true] at this
+    subst this
+    exact ⟨pre1, _, rfl, by simp [hr], by simp⟩
+
+/-- `push_copy` of a non-empty source appends exactly its bytes; all earlier slices keep their bytes. -/
+theorem World.pushCopy_spec (w : World) (i : Nat) (v : Iov) (src : List UInt8) (hv : w.iov i = some v)
+    (hinv : IovInv w v) (hne : src ≠ []) :
+    ∃ w' v', w.pushCopy i src = some w' ∧ w'.iov i = some v' ∧ IovInv w' v' ∧
+      absCells w' v' = absCells w v ++ src.map Cell.byte ∧
+      w'.flat v'.slices = w.flat v.slices ++ src ∧
+      v'.backrefs = v.backrefs ∧ v'.consumedSize = v.consumedSize ∧ v'.consumedSlices = v.consumedSlices ∧
+      v'.logicalSize = v.logicalSize + src.length ∧
+      w'.exts = w.exts ∧ w'.pol = w.pol ∧ w'.tun = w.tun ∧
+      (∀ x ∈ v.slices, w'.sliceBytes x = w.sliceBytes x) ∧
+      (∃ pre last c, v'.slices = pre ++ [last] ∧ last.region = .chunk c ∧ src.length ≤ last.len) ∧
+      (∀ j, j < v.slices.length → v'.slices.take j = v.slices.take j) ∧ w.next ≤ w'.next := by
+  rw [pushCopy_eq w i v src hv hne]
+  have hlen : 0 < src.length := List.length_pos_iff.mpr hne
+  obtain ⟨hnext, hchunk, hcache, hord⟩ := alloc_facts w v src.length hinv _ rfl
+  generalize alloc w.tun v.arena w.next src.length = al at hnext hchunk hcache hord ⊢
+  obtain ⟨arena', next', chunk, off⟩ := al
+  simp only at hnext hchunk hcache hord ⊢
+  obtain ⟨hapos, hasum⟩ := pcAnchors_spec v.anchors chunk v.slices.length hinv.anchors_pos hinv.anchors_sum
+  generalize pcAnchors v.anchors chunk = anchors' at hapos hasum ⊢
+  have hane : anchors'.isEmpty = false := by
+    cases anchors' with
+    | nil => simp at hasum
+    | cons _ _ => rfl
+  simp only [hane, Bool.false_eq_true, if_false]
+  -- the world after the copy
+  let w1 : World := { w with heap := w.heap.write chunk off src, next := next' }
+  have hold : ∀ x ∈ v.slices, SliceOk w1 arena' x := by
+    intro x hx
+    have hx0 := hinv.slices_ok x hx
+    refine ⟨hx0.pos, hx0.ext, ?_⟩
+    intro c hc
+    refine ⟨Nat.lt_of_lt_of_le (hx0.chunk c hc).1 hnext, ?_⟩
+    intro ca' hca' hcc
+    obtain ⟨e1, e2⟩ := hcache ca' hca'
+    have := hord x hx c hc (by omega)
+    omega
+  have hnew : SliceOk w1 arena' ⟨.chunk chunk, off, src.length⟩ := by
+    refine ⟨hlen, (by intro b hb; cases hb), ?_⟩
+    intro c hc
+    simp only [Region.chunk.injEq] at hc
+    subst hc
+    refine ⟨hchunk, ?_⟩
+    intro ca' hca' _
+    obtain ⟨_, e2⟩ := hcache ca' hca'
+    simp only; omega
+  have h1 := push_slice_inv w w1 v ⟨.chunk chunk, off, src.length⟩ anchors' arena' hinv hnew hold
+    (by intro ca' hca'; obtain ⟨e1, _⟩ := hcache ca' hca'; rw [e1]; exact hchunk)
+    (by intro x hx c hc hc2
+        simp only [Region.chunk.injEq] at hc2
+        exact hord x hx c hc hc2.symm)
+    hapos hasum
+  obtain ⟨v2, hv2⟩ := optimize_some _
+    (show ∀ a ∈ ({ v with slices := v.slices ++ [⟨.chunk chunk, off, src.length⟩], anchors := anchors', logicalSize := v.logicalSize + src.length, arena := arena' } : Iov).anchors, 0 < a.count from hapos) (by intro _ hn; simp only at hn; rw [hn] at hasum; simp at hasum)
+  rw [hv2]
+  obtain ⟨hinv2, hflat2, hbr2, hls2, hcs2, hcn2, har2⟩ := optimize_inv w1 _ v2 h1
+    (by intro e he; have := (hinv.br_ok e he).idx_lt; simp only [List.length_append, List.length_singleton]; omega) hv2
+  obtain ⟨pre', last, hl1, hl2, hl3⟩ := optimize_last _ v2 v.slices _ rfl hv2
+  -- bytes of the old slices are untouched by the copy
+  have hframe : ∀ x ∈ v.slices, w1.sliceBytes x = w.sliceBytes x := by
+    intro x hx
+    apply sliceBytes_write_disjoint w w1 chunk off src x rfl rfl
+    intro c hc
+    by_cases hcc : c = chunk
+    · right; left; exact hord x hx c hc hcc
+    · left; exact hcc
+  have hflat1 : w1.flat (v.slices ++ [⟨.chunk chunk, off, src.length⟩]) = w.flat v.slices ++ src := by
+    rw [World.flat_append, flat_congr v.slices hframe]
+    simp only [World.flat_cons, World.flat_nil, List.append_nil]
+    congr 1
+    simp only [World.sliceBytes, w1]
+    exact Heap.read_write_same _ _ _ _
+  let wf : World := { (w.setIov i (some v2)) with heap := w.heap.write chunk off src, next := next' }
+  have hwf_flat : ∀ l, wf.flat l = w1.flat l := fun l => flat_congr l (fun s _ => sliceBytes_congr s rfl rfl)
+  refine ⟨wf, v2, rfl, ?_, ?_, ?_, ?_, hbr2, hcs2, hcn2, hls2, rfl, rfl, rfl, ?_, ?_, ?_, ?_⟩
+  · show (World.iov { (w.setIov i (some v2)) with heap := _, next := _ } i) = some v2
+    have := World.iov_setIov w i (some v2)
+    exact this
+  · exact hinv2.of_world (w := w1) (fun _ => Nat.le_refl _) (Nat.le_refl _)
+  · apply absCells_push hinv src _ hbr2 hcs2
+    rw [hwf_flat, hflat2]; exact hflat1
+  · rw [hwf_flat, hflat2]; exact hflat1
+  · intro x hx
+    rw [← hframe x hx]
+    exact sliceBytes_congr x rfl rfl
+  · exact ⟨pre', last, chunk, hl1, hl2, hl3⟩
+  · intro j hj
+    rw [optimize_take _ v2 hv2 j (by show j + 2 ≤ (v.slices ++ [_]).length; rw [List.length_append, List.length_singleton]; exact Nat.add_le_add_right hj 1)]
+    exact List.take_append_of_le_length (Nat.le_of_lt hj)
+  · exact hnext
+
+/-! ### Producer steps, composable -/
+
+theorem stableN_nil (v : Iov) (h : v.backrefs = []) : v.stableN = v.slices.length := by
+  unfold Iov.stableN; rw [h]; rfl
+
+theorem visible_push {w w' : World} {v v' : Iov} (bytes : List UInt8) (hinv : IovInv w v)
+    (hbr : v'.backrefs = v.backrefs) (hcn : v'.consumedSlices = v.consumedSlices)
+    (hflat : w'.flat v'.slices = w.flat v.slices ++ bytes)
+    (hframe : ∀ x ∈ v.slices, w'.sliceBytes x = w.sliceBytes x)
+    (htake : ∀ j, j < v.slices.length → v'.slices.take j = v.slices.take j) :
+    w'.visible v' = w.visible v ++ (if v.backrefs = [] then bytes else []) := by
+  unfold World.visible
+  cases hb : v.backrefs with
+  | nil =>
+    rw [stableN_nil v hb, stableN_nil v' (hbr.trans hb)]
+    simp only [List.take_length, if_true]
+    exact hflat
+  | cons e t =>
+    simp only [List.cons_ne_nil, if_false, List.append_nil]
+    have hlt := (hinv.br_ok e (by rw [hb]; simp)).idx_lt
+    have hge := (hinv.br_ok e (by rw [hb]; simp)).idx_ge
+    have hj : e.2.sliceIndex - v.consumedSlices < v.slices.length := by omega
+    have e1 : v.stableN = e.2.sliceIndex - v.consumedSlices := by
+      unfold Iov.stableN; rw [hb]; simp only [List.head?_cons]; omega
+    have ht := htake _ hj
+    have hlen' : e.2.sliceIndex - v.consumedSlices ≤ v'.slices.length := by
+      have := congrArg List.length ht
+      simp only [List.length_take] at this
+      omega
+    have e2 : v'.stableN = e.2.sliceIndex - v.consumedSlices := by
+      unfold Iov.stableN; rw [hbr, hb, hcn]; simp only [List.head?_cons]; omega
+    rw [e1, e2, ht]
+    exact flat_congr _ (fun x hx => hframe x (List.mem_of_mem_take hx))
+
+/-- `v'` in world `w'` is `v` in world `w` with `bytes` appended (possibly merged into the last
+slice); nothing already buffered changed. -/
+structure Pushed (w w' : World) (v v' : Iov) (bytes : List UInt8) : Prop where
+  inv : IovInv w' v'
+  cells : absCells w' v' = absCells w v ++ bytes.map Cell.byte
+  flat : w'.flat v'.slices = w.flat v.slices ++ bytes
+  backrefs : v'.backrefs = v.backrefs
+  consumedSize : v'.consumedSize = v.consumedSize
+  consumedSlices : v'.consumedSlices = v.consumedSlices
+  logicalSize : v'.logicalSize = v.logicalSize + bytes.length
+  visible : w'.visible v' = w.visible v ++ (if v.backrefs = [] then bytes else [])
+  pol : w'.pol = w.pol
+  tun : w'.tun = w.tun
+
+theorem Pushed.trans {w w' w'' : World} {v v' v'' : Iov} {b1 b2 : List UInt8}
+    (h1 : Pushed w w' v v' b1) (h2 : Pushed w' w'' v' v'' b2) : Pushed w w'' v v'' (b1 ++ b2) :=
+  { inv := h2.inv
+    cells := by rw [h2.cells, h1.cells]; simp
+    flat := by rw [h2.flat, h1.flat]; simp
+    backrefs := h2.backrefs.trans h1.backrefs
+    consumedSize := h2.consumedSize.trans h1.consumedSize
+    consumedSlices := h2.consumedSlices.trans h1.consumedSlices
+    logicalSize := by rw [h2.logicalSize, h1.logicalSize]; simp; omega
+    visible := by
+      rw [h2.visible, h1.visible, h1.backrefs]
+      split <;> simp
+    pol := h2.pol.trans h1.pol
+    tun := h2.tun.trans h1.tun }
+
+theorem Pushed.of_frame {w w' : World} {v : Iov} (hinv : IovInv w v) (hinv' : IovInv w' v)
+    (hf : ∀ x ∈ v.slices, w'.sliceBytes x = w.sliceBytes x) (hpol : w'.pol = w.pol) (htun : w'.tun = w.tun) :
+    Pushed w w' v v [] := by
+  have hflat : w'.flat v.slices = w.flat v.slices := flat_congr _ hf
+  exact
+    { inv := hinv'
+      cells := by unfold absCells; rw [hflat]; simp
+      flat := by rw [hflat]; simp
+      backrefs := rfl, consumedSize := rfl, consumedSlices := rfl, logicalSize := rfl
+      visible := by
+        unfold World.visible
+        rw [flat_congr _ (fun x hx => hf x (List.mem_of_mem_take hx))]
+        split <;> simp
+      pol := hpol, tun := htun }
+
+theorem Pushed.refl {w : World} {v : Iov} (hinv : IovInv w v) : Pushed w w v v [] :=
+  Pushed.of_frame hinv hinv (fun _ _ => rfl) rfl rfl
+
+theorem Pushed.lend {w : World} {v : Iov} (hinv : IovInv w v) (b : Borrow) : Pushed w (w.lend b).1 v v [] :=
+  Pushed.of_frame hinv (hinv.lend b) (fun x hx => sliceBytes_exts_append w v.arena x _ (hinv.slices_ok x hx)) rfl rfl
+
+theorem Pushed.setIov {w w' : World} {v v' : Iov} {bytes : List UInt8} (h : Pushed w w' v v' bytes) (i : Nat)
+    (o : Option Iov) : Pushed w (w'.setIov i o) v v' bytes :=
+  { inv := h.inv.setIov i o
+    cells := by rw [absCells_setIov]; exact h.cells
+    flat := by rw [flat_setIov]; exact h.flat
+    backrefs := h.backrefs, consumedSize := h.consumedSize, consumedSlices := h.consumedSlices
+    logicalSize := h.logicalSize
+    visible := by rw [visible_setIov]; exact h.visible
+    pol := h.pol, tun := h.tun }
+
+/-- `push_copy`, empty source included. -/
+theorem World.pushCopy_total (w : World) (i : Nat) (v : Iov) (src : List UInt8) (hv : w.iov i = some v)
+    (hinv : IovInv w v) :
+    ∃ w' v', w.pushCopy i src = some w' ∧ w'.iov i = some v' ∧ Pushed w w' v v' src ∧ w'.exts = w.exts := by
+  by_cases hne : src = []
+  · subst hne
+    refine ⟨w, v, ?_, hv, Pushed.refl hinv, rfl⟩
+    unfold World.pushCopy; rw [hv]; rfl
+  · obtain ⟨w', v', h1, h2, h3, h4, h5, h6, h7, h8, h9, h10, h11, h12, h13, _, h15, _⟩ :=
+      World.pushCopy_spec w i v src hv hinv hne
+    exact ⟨w', v', h1, h2,
+      { inv := h3, cells := h4, flat := h5, backrefs := h6, consumedSize := h7, consumedSlices := h8,
+        logicalSize := h9, visible := visible_push src hinv h6 h8 h5 h13 h15, pol := h11, tun := h12 }, h10⟩
+
+/-- `push_borrowed` of a lent slice, empty slice included. -/
+theorem World.pushBorrowed_total (w : World) (i : Nat) (v : Iov) (b : Borrow) (hv : w.iov i = some v)
+    (hinv : IovInv w v) :
+    ∃ v', (w.lend b).1.pushBorrowed i (w.lend b).2 = some ((w.lend b).1.setIov i (some v')) ∧
+      Pushed w ((w.lend b).1.setIov i (some v')) v v' b.bs ∧ v'.arena = v.arena := by
+  by_cases hb : b.bs = []
+  · have h0 : (w.lend b).2.len = 0 := by simp [World.lend, hb]
+    refine ⟨v, ?_, ?_, rfl⟩
+    · unfold World.pushBorrowed
+      rw [lend_iov, hv]
+      simp only [h0, if_true]
+      have : (w.lend b).1.setIov i (some v) = (w.lend b).1 := by
+        unfold World.setIov
+        congr 1
+        unfold listSet
+        have hvi := hv
+        unfold World.iov at hvi
+        have hlt : i < w.iovs.length := by
+          rcases Nat.lt_or_ge i w.iovs.length with h | h
+          · exact h
+          · rw [List.getD_eq_getElem?_getD, List.getElem?_eq_none h] at hvi; cases hvi
+        show (if i < w.iovs.length then w.iovs.set i (some v) else _) = w.iovs
+        rw [if_pos hlt]
+        apply List.ext_getElem?
+        intro j
+        rw [List.getElem?_set]
+        by_cases hij : i = j
+        · subst hij
+          rw [List.getD_eq_getElem?_getD, List.getElem?_eq_getElem hlt] at hvi
+          simp only [Option.getD_some] at hvi
+          simp [hlt, hvi]
+        · simp [hij]
+      rw [this]
+    · rw [hb]; exact (Pushed.lend hinv b).setIov i _
+  · obtain ⟨v', h1, h2, h3, h4, h5, h6, h7, h8, h9, h10⟩ :=
+      World.pushBorrowed_spec (w.lend b).1 i v (w.lend b).2 (by simpa using hv) (hinv.lend b)
+        (lend_sliceOk _ _ b hb) ⟨_, rfl⟩
+    rw [lend_sliceBytes] at h3 h8
+    refine ⟨v', h1, ?_, h5⟩
+    have hp : Pushed (w.lend b).1 (w.lend b).1 v v' b.bs :=
+      { inv := h2, cells := h3, flat := h8, backrefs := h4, consumedSize := h6, consumedSlices := h9
+        logicalSize := by rw [h7]; simp [World.lend]
+        visible := visible_push b.bs (hinv.lend b) h4 h9 h8 (fun _ _ => rfl) h10
+        pol := rfl, tun := rfl }
+    have := (Pushed.lend hinv b).trans hp
+    simpa using this.setIov i (some v')
+
+/-! ### `push`, `extend` -/
+
+theorem ite_cases' {α} (c : Prop) [Decidable c] (a b : α) : (if c then a else b) = a ∨ (if c then a else b) = b := by
+  by_cases h : c
+  · left; rw [if_pos h]
+  · right; rw [if_neg h]
+
+theorem World.push_eq (w : World) (i : Nat) (v : Iov) (s : Slice) (hv : w.iov i = some v) :
+    w.push i s = w.pushCopy i (w.sliceBytes s) ∨ w.push i s = w.pushBorrowed i s := by
+  unfold World.push
+  rw [hv]
+  exact ite_cases' _ _ _
+
+/-- `OwningIovec::push` of a lent slice: copied or borrowed, the same bytes are appended. -/
+theorem World.push_total (w : World) (i : Nat) (v : Iov) (b : Borrow) (hv : w.iov i = some v)
+    (hinv : IovInv w v) :
+    ∃ w' v', (w.lend b).1.push i (w.lend b).2 = some w' ∧ w'.iov i = some v' ∧ Pushed w w' v v' b.bs := by
+  rcases World.push_eq (w.lend b).1 i v (w.lend b).2 (by simpa using hv) with h | h
+  · rw [h, lend_sliceBytes]
+    obtain ⟨w', v', h1, h2, h3, _⟩ := World.pushCopy_total (w.lend b).1 i v b.bs (by simpa using hv) (hinv.lend b)
+    exact ⟨w', v', h1, h2, by simpa using (Pushed.lend hinv b).trans h3⟩
+  · rw [h]
+    obtain ⟨v', h1, h2, _⟩ := World.pushBorrowed_total w i v b hv hinv
+    exact ⟨_, v', h1, by simp, h2⟩
+
+/-- A slice of a caller buffer known to the world, with its bytes. -/
+structure LentOk (w : World) (s : Slice) (bs : List UInt8) : Prop where
+  ext : ∃ b, s.region = .ext b
+  len : s.len = bs.length
+  bytes : w.sliceBytes s = bs
+  ok : bs ≠ [] → ∀ a, SliceOk w a s
+
+theorem LentOk.of_exts_append {w : World} {s : Slice} {bs : List UInt8} (h : LentOk w s bs)
+    (extra : List (List UInt8)) : LentOk ({ w with exts := w.exts ++ extra } : World) s bs := by
+  by_cases hb : bs = []
+  · subst hb
+    refine ⟨h.ext, h.len, ?_, fun hne => absurd rfl hne⟩
+    obtain ⟨b, hb⟩ := h.ext
+    have hl := h.len
+    simp only [List.length_nil] at hl
+    simp [World.sliceBytes, hb, hl]
+  · refine ⟨h.ext, h.len, ?_, ?_⟩
+    · rw [sliceBytes_exts_append w ⟨none⟩ s extra (h.ok hb _)]; exact h.bytes
+    · intro _ a
+      exact (h.ok hb a).of_world (fun _ => exts_append_mono _ _ _) (Nat.le_refl _)
+
+theorem LentOk.of_exts_eq {w w' : World} {s : Slice} {bs : List UInt8} (h : LentOk w s bs)
+    (he : w'.exts = w.exts) (hn : w.next ≤ w'.next) : LentOk w' s bs := by
+  refine ⟨h.ext, h.len, ?_, ?_⟩
+  · obtain ⟨b, hb⟩ := h.ext
+    have := h.bytes
+    unfold World.sliceBytes at this ⊢
+    rw [hb] at this ⊢
+    simp only at this ⊢
+    rw [he]; exact this
+  · intro hne a
+    exact (h.ok hne a).of_world (fun _ => by rw [he]; exact Nat.le_refl _) hn
+
+theorem lend_lentOk (w : World) (b : Borrow) : LentOk (w.lend b).1 (w.lend b).2 b.bs :=
+  ⟨⟨_, rfl⟩, rfl, lend_sliceBytes w b, fun hne a => lend_sliceOk w a b hne⟩
+
+theorem lendAll_fst (w : World) (bs : List Borrow) :
+    (w.lendAll bs).1 = { w with exts := w.exts ++ bs.map (fun b => b.pre ++ b.bs ++ b.post) } := by
+  induction bs generalizing w with
+  | nil => simp [World.lendAll]
+  | cons b t ih =>
+    simp only [World.lendAll]
+    rw [ih]
+    simp [World.lend]
+
+theorem lendAll_spec (w : World) (bs : List Borrow) :
+    ∃ l : List (Slice × List UInt8), (w.lendAll bs).2 = l.map (·.1) ∧ l.map (·.2) = bs.map (·.bs) ∧
+      ∀ p ∈ l, LentOk (w.lendAll bs).1 p.1 p.2 := by
+  induction bs generalizing w with
+  | nil => exact ⟨[], rfl, rfl, by intro p hp; cases hp⟩
+  | cons b t ih =>
+    obtain ⟨l, h1, h2, h3⟩ := ih (w.lend b).1
+    refine ⟨((w.lend b).2, b.bs) :: l, ?_, ?_, ?_⟩
+    · simp only [World.lendAll, List.map_cons]; rw [h1]
+    · simp only [List.map_cons]; rw [h2]
+    · intro p hp
+      simp only [List.mem_cons] at hp
+      rcases hp with rfl | hp
+      · simp only [World.lendAll]
+        rw [lendAll_fst]
+        exact (lend_lentOk w b).of_exts_append _
+      · simp only [World.lendAll]
+        exact h3 p hp
+
+theorem World.extend_spec (i : Nat) : ∀ (l : List (Slice × List UInt8)) (w : World) (v : Iov),
+    w.iov i = some v → IovInv w v → (∀ p ∈ l, LentOk w p.1 p.2) →
+    ∃ w' v', w.extend i (l.map (·.1)) = some w' ∧ w'.iov i = some v' ∧
+      Pushed w w' v v' (l.flatMap (·.2)) := by
+  intro l
+  induction l with
+  | nil =>
+    intro w v hv hinv _
+    exact ⟨w, v, rfl, hv, Pushed.refl hinv⟩
+  | cons p t ih =>
+    intro w v hv hinv hl
+    obtain ⟨s, bs⟩ := p
+    have hp := hl (s, bs) (by simp)
+    simp only [List.map_cons, World.extend, List.flatMap_cons]
+    by_cases h0 : s.len = 0
+    · rw [if_pos h0]
+      have hbs : bs = [] := by
+        have := hp.len; simp only at this; rw [h0] at this
+        exact List.length_eq_zero_iff.mp this.symm
+      obtain ⟨w', v', h1, h2, h3⟩ := ih w v hv hinv (fun q hq => hl q (by simp [hq]))
+      exact ⟨w', v', h1, h2, by simpa [hbs] using h3⟩
+    · rw [if_neg h0]
+      have hbs : bs ≠ [] := by
+        intro hb; have := hp.len; simp only at this; rw [hb] at this; simp at this; exact h0 this
+      obtain ⟨v1, g1, g2, g3, _, _, g6, g7, g8, g9, g10⟩ :=
+        World.pushBorrowed_spec w i v s hv hinv (hp.ok hbs _) hp.ext
+      rw [g1]
+      simp only
+      have hb := hp.bytes
+      simp only at hb
+      rw [hb] at g3 g8
+      have hp1 : Pushed w (w.setIov i (some v1)) v v1 bs :=
+        Pushed.setIov
+          { inv := g2, cells := g3, flat := g8, backrefs := by assumption, consumedSize := g6,
+            consumedSlices := g9, logicalSize := by rw [g7, hp.len]
+            visible := visible_push bs hinv (by assumption) g9 g8 (fun _ _ => rfl) g10
+            pol := rfl, tun := rfl } i _
+      obtain ⟨w', v', h1, h2, h3⟩ := ih (w.setIov i (some v1)) v1 (by simp) (g2.setIov _ _)
+        (fun q hq => (hl q (by simp [hq])).of_exts_eq rfl (Nat.le_refl _))
+      exact ⟨w', v', h1, h2, hp1.trans h3⟩
+
+/-- `OwningIovec::extend` with lent buffers. -/
+theorem World.extend_total (w : World) (i : Nat) (v : Iov) (bs : List Borrow) (hv : w.iov i = some v)
+    (hinv : IovInv w v) :
+    ∃ w' v', (w.lendAll bs).1.extend i (w.lendAll bs).2 = some w' ∧ w'.iov i = some v' ∧
+      Pushed w w' v v' (bs.flatMap (·.bs)) := by
+  obtain ⟨l, h1, h2, h3⟩ := lendAll_spec w bs
+  have hw1 : (w.lendAll bs).1 = { w with exts := w.exts ++ bs.map (fun b => b.pre ++ b.bs ++ b.post) } :=
+    lendAll_fst w bs
+  have hinv1 : IovInv (w.lendAll bs).1 v := by
+    rw [hw1]; exact hinv.of_world (fun _ => exts_append_mono _ _ _) (Nat.le_refl _)
+  have hp0 : Pushed w (w.lendAll bs).1 v v [] := by
+    apply Pushed.of_frame hinv hinv1
+    · intro x hx; rw [hw1]; exact sliceBytes_exts_append w v.arena x _ (hinv.slices_ok x hx)
+    · rw [hw1]
+    · rw [hw1]
+  obtain ⟨w', v', g1, g2, g3⟩ := World.extend_spec i l (w.lendAll bs).1 v (by rw [hw1]; exact hv) hinv1 h3
+  rw [← h1] at g1
+  have hflat : l.flatMap (·.2) = bs.flatMap (·.bs) := by
+    rw [List.flatMap_def, List.flatMap_def, h2]
+  rw [hflat] at g3
+  exact ⟨w', v', g1, g2, by simpa using hp0.trans g3⟩
+
+theorem producer_refines (i : Nat) (s : State) (w' : World) (v v' : Iov) (bytes : List UInt8)
+    (hv : s.w.iov i = some v) (hv' : w'.iov i = some v') (hp : Pushed s.w w' v v' bytes) :
+    Inv i { s with w := w' } ∧ abs i { s with w := w' } = (abs i s).append bytes := by
+  refine ⟨⟨v', hv', hp.inv⟩, ?_⟩
+  rw [abs_eq i s v hv, abs_eq i _ v' hv']
+  simp only [Pipe.append, hp.cells]
+
+theorem refines_pushCopy (i : Nat) (s : State) (src : List UInt8) (hinv : Inv i s) :
+    Refines i s (.pushCopy src) := by
+  obtain ⟨v, hv, hi⟩ := hinv
+  obtain ⟨w', v', h1, h2, h3, _⟩ := World.pushCopy_total s.w i v src hv hi
+  obtain ⟨g1, g2⟩ := producer_refines i s w' v v' src hv h2 h3
+  exact ⟨_, _, by simp only [step, h1]; rfl, g1, g2, rfl⟩
+
+theorem refines_push (i : Nat) (s : State) (b : Borrow) (hinv : Inv i s) :
+    Refines i s (.push b) := by
+  obtain ⟨v, hv, hi⟩ := hinv
+  obtain ⟨w', v', h1, h2, h3⟩ := World.push_total s.w i v b hv hi
+  obtain ⟨g1, g2⟩ := producer_refines i s w' v v' b.bs hv h2 h3
+  exact ⟨_, _, by simp only [step, h1]; rfl, g1, g2, rfl⟩
+
+theorem refines_extend (i : Nat) (s : State) (bs : List Borrow) (hinv : Inv i s) :
+    Refines i s (.extend bs) := by
+  obtain ⟨v, hv, hi⟩ := hinv
+  obtain ⟨w', v', h1, h2, h3⟩ := World.extend_total s.w i v bs hv hi
+  obtain ⟨g1, g2⟩ := producer_refines i s w' v v' _ hv h2 h3
+  exact ⟨_, _, by simp only [step, h1]; rfl, g1, g2, rfl⟩
 
 end Woodpile.Iovec
